@@ -232,6 +232,12 @@ Lemma ktr_is_child : forall fuel w c, ktr (is_child fuel w c).
 Proof. intros. unfold is_child. ktr_auto. Qed.
 Lemma ktr_window_ref : forall w, ktr (window_ref w).
 Proof. intros. unfold window_ref. ktr_auto. Qed.
+Lemma ktr_sib_walk : forall fuel k a, ktr (sib_walk fuel k a).
+Proof. ktr_fix fuel. Qed.
+#[export] Hint Resolve ktr_sib_walk : ktr.
+Lemma ktr_scroll_up : forall fuel a, ktr (scroll_up fuel a).
+Proof. ktr_fix fuel. Qed.
+#[export] Hint Resolve ktr_scroll_up : ktr.
 Lemma ktr_count_up : forall fuel w, ktr (count_up fuel w).
 Proof. ktr_fix fuel. Qed.
 #[export] Hint Resolve ktr_is_child ktr_window_ref ktr_count_up : ktr.
